@@ -319,7 +319,8 @@ def main():
     rep = common.Report(PID, "model_checking")
     rep.rule = ("one case = one valid skeleton script loaded, serialised and re-loaded twice symbolically (all literal values solver variables); "
                 "families: own templates/regrefs/arrays/tdm, C02 statement sequences, C05 declarations, C06 loops")
-    rep.bounds = {"generations": 2, "skeletons": "as in C02/C05/C06 quick generators (sampled) + %d own scripts" % len(OWN)}
+    rep.bounds = {"generations": 2, "skeletons": "as in C02/C05/C06 quick generators (sampled) + %d own scripts" % len(OWN),
+                  "symbolic expression shapes": "3 leaves x 2 operators x brackets none/left/right x signs: %d shapes (quick: every 5th, by seed; thorough: all)" % len(symx_specs())}
     rep.assumptions = [
         "generation n >= 3 by induction: generation 2 is asserted to stay in the same value kinds (kind drift would show as a kind mismatch)",
         "symbolic arguments are compared by evaluating both expressions on fresh symbolic parameter / register values",
